@@ -68,8 +68,12 @@ _SNAP = {}
 def _catalogue():
     c = repo.mod("geodepy.constants")
     out = {}
-    for n, v in vars(c).items():
-        if type(v).__name__ in ("Ellipsoid", "Projection", "Transformation", "TransformationSD"):
+    kinds = tuple(getattr(c, k) for k in ("Ellipsoid", "Projection", "Transformation", "TransformationSD"))
+    for n in dir(c):
+        if n.startswith("_"):
+            continue
+        v = getattr(c, n, None)
+        if isinstance(v, kinds):
             out[n] = v
     return out
 
